@@ -80,6 +80,7 @@ func (r *runner) par(ops []tr.Line) {
 }
 
 var settleSkip bool
+var statsPath string
 
 func (x *X) doNoWindow(op tr.Line) (tr.Line, []tr.Line) {
 	if op.Name == "call" {
@@ -101,12 +102,14 @@ func runCase(w *tr.Writer, id string, cfg caseCfg, body func(r *runner)) {
 	w.Op(cfg.cfgOp())
 	r := &runner{x: x, w: w}
 	t0 := time.Now()
-	// watchdog: a case that does not finish is a harness bug; show where everything is blocked
+	// watchdog: a case that does not finish is a harness problem; show where everything is
+	// blocked, keep the cases completed so far (the stuck one is dropped) and stop generating
 	wd := time.AfterFunc(40*time.Second, func() {
 		buf := make([]byte, 1<<20)
 		n := runtime.Stack(buf, true)
-		fmt.Fprintf(os.Stderr, "drv-engine: case %s stuck for 40 s\n%s\n", id, buf[:n])
-		os.Exit(3)
+		fmt.Fprintf(os.Stderr, "drv-engine: case %s stuck for 40 s, dropped; goroutines:\n%s\n", id, buf[:n])
+		w.Close(statsPath)
+		os.Exit(0)
 	})
 	defer wd.Stop()
 	panicked, msg := tr.Guard(func() { body(r) })
@@ -641,6 +644,7 @@ func main() {
 	logging.SetDefaultLoggerAndFlusher(nopLogger{}, nil)
 	gnet.VerifEngSetShutdownPollInterval(2 * time.Millisecond)
 	w := tr.NewWriter(*out)
+	statsPath = *stats
 	defer w.Close(*stats)
 	if *rep != "" {
 		for _, c := range tr.ReadCases(*rep) {
